@@ -2190,3 +2190,231 @@ func ruleBigReduce(c *Ctx) {
 		c.undecided("bigreduce.count", fd, fmt.Sprintf("only %d big.Int reduction loops found in FromInt", n), "C10")
 	}
 }
+
+// Narrowing a limb value: `uint256{x[0], x[1], x[2], x[3]}` built from a wider x keeps the value only if
+// the limbs left out are zero. The interval analysis must know them to be [0,0] at that point (a
+// preceding loop `for x[4] > 0 { ... }`, a guard, ...).
+func ruleNarrowLimbs(c *Ctx) {
+	p := c.P
+	n := 0
+	for _, name := range p.sortedFuncNames() {
+		fd := p.Funcs[name]
+		if fd.Body == nil {
+			continue
+		}
+		if fd.Recv != nil && strings.HasPrefix(recvTypeName(fd.Recv.List[0].Type), "uint") {
+			continue
+		}
+		k := 0
+		walkStack(fd.Body, func(nd ast.Node, stack []ast.Node) {
+			cl, ok := nd.(*ast.CompositeLit)
+			if !ok {
+				return
+			}
+			tl := limbsOf(p.typeOf(cl))
+			if tl < 1 || len(cl.Elts) != tl {
+				return
+			}
+			srcKey := ""
+			var srcExpr ast.Expr
+			for i, el := range cl.Elts {
+				ix, ok := ast.Unparen(el).(*ast.IndexExpr)
+				if !ok {
+					return
+				}
+				j, ok := p.constInt64(ix.Index)
+				if !ok || int(j) != i {
+					return
+				}
+				key := p.exprKey(ix.X)
+				if key == "" || (srcKey != "" && key != srcKey) {
+					return
+				}
+				srcKey, srcExpr = key, ix.X
+			}
+			sl := limbsOf(p.typeOf(srcExpr))
+			if sl <= tl {
+				return
+			}
+			k++
+			n++
+			var site ast.Node
+			for i := len(stack) - 1; i >= 0; i-- {
+				if _, ok := stack[i].(ast.Stmt); ok {
+					site = stack[i]
+					break
+				}
+			}
+			missing := ""
+			if site == nil {
+				missing = "?"
+			} else {
+				save := p.ivCurFn
+				p.ivCurFn = fd
+				env, reached := p.envWalk(fd.Body.List, p.paramEnv(fd), site)
+				p.ivCurFn = save
+				if !reached {
+					missing = "?"
+				} else if !env.isBottom() {
+					for j := tl; j < sl; j++ {
+						iv, ok := env[srcKey+"["+itoa(j)+"]"]
+						iv = meetIval(iv, ival{lo: big.NewInt(0), hi: new(big.Int).SetUint64(^uint64(0))}) // a limb is an unsigned word
+						if pt, isPt := iv.point(); !ok || !isPt || pt.Sign() != 0 {
+							missing += fmt.Sprintf(" %s[%d]", p.exprStr(srcExpr), j)
+						}
+					}
+				}
+			}
+			c.check(missing == "", fmt.Sprintf("narrowlimbs:%s#%d", name, k), cl, fmt.Sprintf("the %d upper limbs left out are known to be zero", sl-tl),
+				fmt.Sprintf("%s: `%s` keeps the low %d limbs of a %d-limb value, but%s is not known to be zero here: the upper part of the value is silently dropped", name, p.exprStr(cl), tl, sl, missing), funcProps(name)...)
+		})
+	}
+	if n < 8 {
+		c.undecided("narrowlimbs.count", nil, fmt.Sprintf("only %d limb narrowings found", n))
+	}
+}
+
+// Working precision of the 192-bit kernels: the loops that produce further quotient digits in
+// decomposed192.quo / rcp and in QuoWithMode run while the remainder is non-zero and the quotient can
+// still take a digit. The bound on the quotient's top word must let it grow to 57 digits
+// ((B+1)·2^128 >= 10^56), otherwise the working precision silently drops below what the 1-ulp
+// results built on it assume.
+func ruleQuotientPrecision(c *Ctx) {
+	p := c.P
+	need := pow10(56)
+	n := 0
+	for _, fn := range []string{"decomposed192.quo", "decomposed192.rcp"} {
+		fd := c.fn(fn)
+		if fd == nil {
+			continue
+		}
+		k := 0
+		ast.Inspect(fd.Body, func(nd ast.Node) bool {
+			loop, ok := nd.(*ast.ForStmt)
+			if !ok || loop.Cond == nil {
+				return true
+			}
+			hasRem := false
+			var bound *big.Int
+			var bexpr ast.Expr
+			for _, cj := range conjuncts(loop.Cond) {
+				if _, isZero, ok := p.wholeZeroTest(cj); ok && !isZero {
+					hasRem = true
+					continue
+				}
+				x, op, kv, ok := p.normCmp(cj)
+				if !ok {
+					continue
+				}
+				if ix, isIx := ast.Unparen(x).(*ast.IndexExpr); isIx && limbsOf(p.typeOf(ix.X)) == 3 {
+					if i, ok := p.constInt64(ix.Index); ok && i == 2 {
+						switch op {
+						case token.LEQ:
+							bound, bexpr = kv, cj
+						case token.EQL:
+							bound, bexpr = kv, cj // sig[2] == c continues only at that value: at most c
+						}
+					}
+				}
+			}
+			if !hasRem || bound == nil {
+				return true
+			}
+			k++
+			n++
+			reach := new(big.Int).Add(bound, big.NewInt(1))
+			reach.Lsh(reach, 128)
+			c.check(reach.Cmp(need) >= 0, fmt.Sprintf("quoprec:%s#%d", fn, k), loop, "digits are produced until the quotient holds 57 digits",
+				fmt.Sprintf("%s: the loop that produces further quotient digits stops when `%s` fails, i.e. once the quotient reaches (%#x+1)·2^128 - fewer than 57 digits: every function built on this kernel loses working precision", fn, p.exprStr(bexpr), bound), "C16", "C17", "C18")
+			return true
+		})
+	}
+	if n < 2 {
+		c.undecided("quoprec.count", nil, fmt.Sprintf("only %d digit-producing loops found in decomposed192.quo/rcp", n), "C16")
+	}
+}
+
+// Stale wide copy: after `y := uint128{x[0], x[1]}` (x narrowed into y) the computation continues on y.
+// A later read of x - once y has been modified - looks at a value that is no longer current.
+func ruleStaleWide(c *Ctx) {
+	p := c.P
+	n := 0
+	for _, name := range p.sortedFuncNames() {
+		fd := p.Funcs[name]
+		if fd.Body == nil {
+			continue
+		}
+		if fd.Recv != nil && strings.HasPrefix(recvTypeName(fd.Recv.List[0].Type), "uint") {
+			continue
+		}
+		k := 0
+		walkStack(fd.Body, func(nd ast.Node, stack []ast.Node) {
+			as, ok := nd.(*ast.AssignStmt)
+			if !ok || len(as.Lhs) != 1 || len(as.Rhs) != 1 {
+				return
+			}
+			cl, ok := ast.Unparen(as.Rhs[0]).(*ast.CompositeLit)
+			if !ok || limbsOf(p.typeOf(cl)) < 1 || len(cl.Elts) == 0 {
+				return
+			}
+			ykey := p.exprKey(as.Lhs[0])
+			var xObj types.Object
+			for i, el := range cl.Elts {
+				ix, ok := ast.Unparen(el).(*ast.IndexExpr)
+				if !ok {
+					return
+				}
+				if j, ok := p.constInt64(ix.Index); !ok || int(j) != i {
+					return
+				}
+				o := p.objOf(ix.X)
+				if o == nil || (xObj != nil && o != xObj) {
+					return
+				}
+				xObj = o
+			}
+			if xObj == nil || ykey == "" || limbsOf(xObj.Type()) <= len(cl.Elts) {
+				return
+			}
+			k++
+			n++
+			// first modification of y after the narrowing, then any read of x after that
+			firstMod := token.NoPos
+			ast.Inspect(fd.Body, func(m ast.Node) bool {
+				if st, ok := m.(*ast.AssignStmt); ok && st.Pos() > as.End() && p.assignsTo(st, ykey) {
+					if firstMod == token.NoPos || st.Pos() < firstMod {
+						firstMod = st.Pos()
+					}
+				}
+				return true
+			})
+			stale := ""
+			if firstMod != token.NoPos {
+				// x itself reassigned later makes it current again
+				ast.Inspect(fd.Body, func(m ast.Node) bool {
+					id, ok := m.(*ast.Ident)
+					if !ok || p.Info.Uses[id] != xObj || id.Pos() < firstMod || stale != "" {
+						return true
+					}
+					reassigned := false
+					xkey := fmt.Sprintf("%s@%d", xObj.Name(), xObj.Pos())
+					ast.Inspect(fd.Body, func(q ast.Node) bool {
+						if st, ok := q.(*ast.AssignStmt); ok && st.Pos() > as.End() && st.End() <= id.Pos() && p.assignsTo(st, xkey) {
+							reassigned = true
+						}
+						return true
+					})
+					if !reassigned {
+						stale = p.posStr(id)
+					}
+					return true
+				})
+			}
+			c.check(stale == "", fmt.Sprintf("stalewide:%s#%d", name, k), as, "the wide value is not read again after its narrowed copy has been modified",
+				fmt.Sprintf("%s: %s was narrowed into %s, which is modified afterwards, and %s is still read at %s: that is the value from before the narrowing", name, xObj.Name(), p.exprStr(as.Lhs[0]), xObj.Name(), stale), funcProps(name)...)
+		})
+	}
+	if n < 6 {
+		c.undecided("stalewide.count", nil, fmt.Sprintf("only %d limb narrowings found", n))
+	}
+}
